@@ -11,19 +11,29 @@ representations (`Wide.storage`):
   `uintwide_t` of the *other* operand's type from the built-in value (`fromBuiltin`) and call the member
   comparison (`cmpOp`);
 * both multi-limb of the same width and signedness: the same `uintwide_t` type, member comparison;
-* both multi-limb of **different widths** (same limb type): since the repair, both operands are
+* both multi-limb of **different widths** (same limb type): since the first repair (98dcf83), both operands are
   `static_cast` to the wider of the two representations — for the narrower one that is the converting
   constructor `uintwide_t(const uintwide_t<OtherWidth2, LimbType, AllocatorType, OtherIsSigned>&)`
   (`widenCtor`: copy the limbs and fill with zeros; a negative value is negated first and negated again
-  in the wider format) — and then compared by the member comparison of the wider type: `cmpMixed`;
+  in the wider format) — and then compared by the member comparison of the wider type: `cmpMixedOrig2`;
 * both multi-limb of the same width and different signedness, or over different limb types: ill-formed
-  (ambiguous / no conversion) — before and after the repair.
+  (ambiguous / no conversion) — before and after the repairs;
+* **different signedness and at least one multi-limb representation** (second repair): before anything is
+  converted, the operand of the signed type is tested, `to_rep(x) < 0` (`negTestMulti` = the member comparison
+  with `uintwide_t(0)`; the built-in `<` for a single-word representation); a negative operand decides the
+  comparison, `Operator()(-1, 0)` or `Operator()(0, -1)` (`lhsNegative`, `rhsNegative`).  Otherwise as above:
+  `cmpMixed`, `wideCmp`.
 
 **As found** (`cmpMixedOrig`): `Operator()(to_rep(lhs), to_rep(rhs))` on two `uintwide_t`s of different
 widths selected the *member* comparison of the left operand; the right operand reached its parameter
 `const uintwide_t&` through the implicit conversion `operator uintwide_t<OtherWidth2, …>()` (`castOp`),
 which *narrows* when the right operand is the wider one: `wide_integer<200>{5} == wide_integer<300>{2^250 + 5}`.
 Kernel-checked refutation: `CnlProperties/C03.lean` (`wide_mixed_width_unrepaired_refuted`).
+
+**After the first repair** (`cmpMixedOrig2`, `wideCmpOrig2`): a negative operand converted to a wider *unsigned*
+representation compared as a huge positive number: `wide_integer<200, int>{-1} < wide_integer<300, unsigned>{5}`
+was false, and so was `wide_integer<20, int>{-1} < wide_integer<200, unsigned>{5}`.
+Kernel-checked refutation: `CnlProperties/C03.lean` (`wide_mixed_signedness_unrepaired_refuted`).
 Lean core only.
 -/
 namespace Cnl.Wide
@@ -57,15 +67,35 @@ def castOp (f g : Fmt) (a : Limbs) : Limbs :=
 /-- the two multi-limb representations convert into one another: same limb type; same width ⇒ same type -/
 def cmpWellFormed (f g : Fmt) : Bool := f.w == g.w && (f.N != g.N || f.signed == g.signed)
 
-/-- comparison of two multi-limb `wide_integer`s, as repaired: in the wider representation -/
-def cmpMixed (f g : Fmt) (op : CmpOp) (a b : Limbs) : Res Bool :=
+/-- comparison of two multi-limb `wide_integer`s after the first repair (98dcf83): in the wider representation -/
+def cmpMixedOrig2 (f g : Fmt) (op : CmpOp) (a b : Limbs) : Res Bool :=
   if !cmpWellFormed f g then .ill "no (unambiguous) conversion between the two uintwide_t types"
   else if f.N = g.N then .ok (cmpOp f op a b)
   else
     let W := if f.N < g.N then g else f
     .ok (cmpOp W op (convTo f W a) (convTo g W b))
 
-/-- the same **before** the repair: the member comparison of the left operand, the right operand implicitly
+/-- `to_rep(x) < 0` for a multi-limb representation: `uintwide_t`'s `operator<(const uintwide_t&, const IntegralType&)`
+constructs `uintwide_t(0)` of the same type and calls the member comparison -/
+def negTestMulti (f : Fmt) (a : Limbs) : Bool := cmpOp f .lt a (fromBuiltin f i32 0)
+
+/-- `Operator()(-1, 0)`: the left operand is negative, the right one of an unsigned type -/
+def lhsNegative (op : CmpOp) : Bool := cCmp op (i32, -1) (i32, 0)
+/-- `Operator()(0, -1)` -/
+def rhsNegative (op : CmpOp) : Bool := cCmp op (i32, 0) (i32, -1)
+
+/-- comparison of two multi-limb `wide_integer`s, as repaired: for different signedness a negative operand decides;
+otherwise in the wider representation -/
+def cmpMixed (f g : Fmt) (op : CmpOp) (a b : Limbs) : Res Bool :=
+  if !cmpWellFormed f g then .ill "no (unambiguous) conversion between the two uintwide_t types"
+  else if f.signed && !g.signed && negTestMulti f a then .ok (lhsNegative op)
+  else if !f.signed && g.signed && negTestMulti g b then .ok (rhsNegative op)
+  else if f.N = g.N then .ok (cmpOp f op a b)
+  else
+    let W := if f.N < g.N then g else f
+    .ok (cmpOp W op (convTo f W a) (convTo g W b))
+
+/-- the same **before** the repairs: the member comparison of the left operand, the right operand implicitly
 converted to the left operand's type -/
 def cmpMixedOrig (f g : Fmt) (op : CmpOp) (a b : Limbs) : Res Bool :=
   if !cmpWellFormed f g then .ill "no (unambiguous) conversion between the two uintwide_t types"
@@ -75,8 +105,8 @@ def cmpMixedOrig (f g : Fmt) (op : CmpOp) (a b : Limbs) : Res Bool :=
 /-- the limbs of the `f.N`-bit two's-complement pattern of `v` -/
 def encode (f : Fmt) (v : Int) : Limbs := ofNat f.w f.n (v % 2^f.N).toNat
 
-/-- `wide_integer<dl, nl> OP wide_integer<dr, nr>` (different types) on the values `l`, `r`;
-`cmpMulti` = `cmpMixed` (repaired) or `cmpMixedOrig` -/
+/-- `wide_integer<dl, nl> OP wide_integer<dr, nr>` (different types) on the values `l`, `r`, **before the second
+repair**; `cmpMulti` = `cmpMixedOrig2` (first repair) or `cmpMixedOrig` (as found) -/
 def wideCmpWith (cmpMulti : Fmt → Fmt → CmpOp → Limbs → Limbs → Res Bool)
     (dl : Nat) (nl : IntTy) (dr : Nat) (nr : IntTy) (op : CmpOp) (l r : Int) : Res Bool :=
   match storage dl nl, storage dr nr with
@@ -85,7 +115,23 @@ def wideCmpWith (cmpMulti : Fmt → Fmt → CmpOp → Limbs → Limbs → Res Bo
   | .multi f, .builtin t => .ok (cmpOp f op (encode f l) (fromBuiltin f t r))
   | .multi f, .multi g => cmpMulti f g op (encode f l) (encode g r)
 
-def wideCmp := wideCmpWith cmpMixed
 def wideCmpOrig := wideCmpWith cmpMixedOrig
+def wideCmpOrig2 := wideCmpWith cmpMixedOrig2
+
+/-- `wide_integer<dl, nl> OP wide_integer<dr, nr>` (different types) on the values `l`, `r`, as repaired: where a
+multi-limb representation meets a representation of the other signedness, the sign of the signed operand is tested
+first (`to_rep(x) < 0`: the built-in comparison with the `int` 0 for a single-word representation) -/
+def wideCmp (dl : Nat) (nl : IntTy) (dr : Nat) (nr : IntTy) (op : CmpOp) (l r : Int) : Res Bool :=
+  match storage dl nl, storage dr nr with
+  | .builtin s, .builtin t => .ok (cCmp op (s, l) (t, r))
+  | .builtin s, .multi g =>
+    if s.signed && !g.signed && cCmp .lt (s, l) (i32, 0) then .ok (lhsNegative op)
+    else if !s.signed && g.signed && negTestMulti g (encode g r) then .ok (rhsNegative op)
+    else .ok (cmpOp g op (fromBuiltin g s l) (encode g r))
+  | .multi f, .builtin t =>
+    if f.signed && !t.signed && negTestMulti f (encode f l) then .ok (lhsNegative op)
+    else if !f.signed && t.signed && cCmp .lt (t, r) (i32, 0) then .ok (rhsNegative op)
+    else .ok (cmpOp f op (encode f l) (fromBuiltin f t r))
+  | .multi f, .multi g => cmpMixed f g op (encode f l) (encode g r)
 
 end Cnl.Wide
